@@ -400,4 +400,18 @@ def exDisciplined : List Input :=
   [ .start 0, .proposal ⟨0, 0, 0, -1, 8⟩, .prevote ⟨0, 0, 0, some 8⟩, .prevote ⟨0, 0, 2, some 8⟩,
     .precommit ⟨0, 0, 0, some 8⟩, .precommit ⟨0, 0, 2, some 8⟩, .start 0, .timeout .propose 1 0 ]
 
+
+/-! ### a non-member address with quorum power (the sync pseudo-sender of `consensus/mock.go`) -/
+
+/-- four validators of power 1, N = 4, and address 9 — not a validator — with power 4, as
+`mockValidators.ValidatorVotingPower` gives to `SyncProtocolPrecommitSender` -/
+def envPseudo : Env :=
+  { totalPower := fun _ => 4, power := fun _ a => if a = 9 then 4 else if a < 4 then 1 else 0,
+    proposer := fun _ r => if r = 0 then 0 else 3, valid := fun _ => true, appValue := fun k => 100 + k }
+
+/-- validator 1: the round-0 proposal of validator 0, then ONE precommit carrying sender 9 -/
+def pseudoA : List Input := [.start 0, .proposal ⟨0, 0, 0, -1, 8⟩, .precommit ⟨0, 0, 9, some 8⟩]
+/-- validator 2: the round-1 proposal of validator 3, then ONE precommit carrying sender 9 -/
+def pseudoB : List Input := [.start 0, .proposal ⟨0, 1, 3, -1, 12⟩, .precommit ⟨0, 1, 9, some 12⟩]
+
 end Juno.C12
